@@ -87,7 +87,19 @@ func setup(tier string, seed uint64) {
 		a.tables["kern"] = k.Encode()
 		pool = append(pool, a)
 	}
+	// hand-assembled CFF tables with subroutines (the library's writer emits
+	// none); the undamaged artefact must be readable
+	for i := 0; i < 8; i++ {
+		t := tape.New(tape.CaseSeed(seed, "C02-handcff", uint64(i)))
+		data := simgen.HandCFF(t)
+		if _, err := cff.Read(bytes.NewReader(data)); err != nil {
+			panic(fmt.Sprintf("worker: hand-made CFF %d is rejected by cff.Read: %v", i, err))
+		}
+		handCFF = append(handCFF, data)
+	}
 }
+
+var handCFF [][]byte
 
 var decoders = []string{"sfnt.Read", "sfnt.Read(streaming)", "header.Read", "cff.Read", "cmap.Decode", "glyf.Decode", "gtab.Read(GSUB)", "gtab.Read(GPOS)",
 	"gdef.Read", "coverage.Read", "coverage.ReadSet", "classdef.Read", "name.Decode", "head.Read", "hmtx.Decode", "maxp.Read", "os2.Read", "post.Read", "kern.Read"}
@@ -397,8 +409,18 @@ func run(c *wk.Case) {
 			c.Trivial()
 			return
 		}
-		input = damage(c, a.tables[tag], pool[t.Draw(len(pool))].tables[tag])
-		c.Logf("%s on table %q of %s (%d bytes)", dec, tag, a.name, len(input))
+		src := a.tables[tag]
+		srcName := a.name
+		if dec == "cff.Read" && t.Chance(1, 2) {
+			i := t.Draw(len(handCFF))
+			src, srcName = handCFF[i], fmt.Sprintf("hand-made CFF with subroutines #%d", i)
+			c.Count("handmade_cff_cases", 1)
+		}
+		input = damage(c, src, pool[t.Draw(len(pool))].tables[tag])
+		c.Logf("%s on table %q of %s (%d bytes)", dec, tag, srcName, len(input))
+		if len(input) <= 400 {
+			c.Logf("input bytes: %x", input)
+		}
 		switch dec {
 		case "cff.Read":
 			var f *cff.Font
@@ -500,6 +522,9 @@ func run(c *wk.Case) {
 				c.MustNotPanic("accessors/kern.Encode", func() { info.Encode() })
 			}
 		}
+	}
+	if len(input) <= 400 && c.Tracing() {
+		c.Logf("input bytes: %x", input)
 	}
 	res := "rejected"
 	if accepted {
